@@ -294,6 +294,8 @@ def run(rep, ctx):
         wrap = lambda items: '<html><body><ul>%s</ul></body></html>' % ''.join(items)  # noqa
         big += [(wrap(base), wrap(base)), (wrap(base), wrap(same_other_order)), (wrap(base), wrap(retitled)), (wrap(base), wrap(grown)),
                 (wrap(grown), wrap(base)), (wrap(base), wrap(shrunk)), (wrap(retitled), wrap(grown))]
+    import render_checks as _rc
+    big += _rc.real_pages()          # archived versions of real pages from the repository's fixtures (hundreds of links each)
     n_big = 0
     for a, b in big:
         rep.count(('big', a, b), a != b)
@@ -306,7 +308,7 @@ def run(rep, ctx):
             if n_big <= 2:
                 rep.violation('accounting-long-%d' % n_big, {'what': fails[:4], 'a_text': a[:3000], 'b_text': b[:3000], 'links_in_a': a.count('<a '), 'links_in_b': b.count('<a '),
                                                             'call': 'links_diff_json(a_text, b_text)'})
-    rep.obligation('observer: exactly-once accounting on %d pairs of pages with 150 to 450 links' % len(big), n_big == 0)
+    rep.obligation('observer: exactly-once accounting on %d pairs of pages with 150 to 450 links and of real archived pages' % len(big), n_big == 0)
 
     # ---- fine seam: _assemble_diff with arbitrary valid opcodes (a superset of what difflib returns)
     m2 = 1500 if tier == 'quick' else 20000
